@@ -52,6 +52,9 @@ pub enum SectionKind {
     TwoNameBinary,
     /// `diff.submodule = log`: "Submodule path 123..456:" followed by commit summary lines
     SubmoduleLog,
+    /// a modified file whose last line is a hunk header with nothing after it (truncated input,
+    /// `git diff | head`): only the concatenation check uses it
+    ModifiedEndsWithHunkHeader,
     /// `git diff` during a merge: combined diff whose hunk holds a conflict region
     /// (<<<<<<< / optional ||||||| / ======= / >>>>>>>); only the concatenation check uses it
     CombinedConflict,
@@ -100,6 +103,7 @@ pub const ALL_SECTION_KINDS_C10: &[SectionKind] = &[
     SectionKind::TwoNameBinary,
     SectionKind::SubmoduleLog,
     SectionKind::CombinedConflict,
+    SectionKind::ModifiedEndsWithHunkHeader,
     // CombinedConflictOpen (a section that ends inside a conflict region) is not in the list: it is
     // not a complete file diff, and what delta should do with the lines it has buffered when the
     // next section begins is not something the property decides
@@ -556,11 +560,15 @@ impl<'a> Gen<'a> {
         }
         meta(self, format!("diff --git a/{} b/{}", a, b));
         match kind {
-            Modified | ModifiedEndsChanged => {
+            Modified | ModifiedEndsChanged | ModifiedEndsWithHunkHeader => {
                 meta(self, format!("index {}..{} 100644", h1, h2));
                 meta(self, format!("--- a/{}", a));
                 meta(self, format!("+++ b/{}", b));
                 self.hunks(p, section, 1, None, kind == ModifiedEndsChanged);
+                if kind == ModifiedEndsWithHunkHeader {
+                    let t = self.token();
+                    self.push(format!("@@ -90210,3 +90214,4 @@ fn {}()", t), LineKind::HunkHeader, None, section, 99);
+                }
             }
             Added => {
                 meta(self, "new file mode 100644".into());
@@ -652,7 +660,16 @@ pub fn generate(rng: &mut Rng, p: &GenParams) -> Vec<GLine> {
         let n = g.fname(0);
         g.forced_name = Some(n);
     }
+    // `git log -p`: every file section may be a commit of its own; git puts an empty line between a
+    // patch and the next commit, a custom --format may not
+    let log_stream = p.with_commit_preamble && p.flavor != Flavor::DiffU && g.rng.chance(1, 2);
     for (i, k) in p.sections.iter().enumerate() {
+        if i > 0 && log_stream {
+            if g.rng.chance(2, 3) {
+                g.push("".into(), LineKind::Meta, None, usize::MAX, 0);
+            }
+            g.commit_preamble();
+        }
         g.section(p, *k, i);
     }
     g.lines
@@ -976,6 +993,14 @@ pub fn random_delta_opts(rng: &mut Rng) -> DeltaOpts {
     if rng.chance(1, 10) {
         push("--hunk-header-decoration-style");
         push(*rng.pick(&["none", "box", "ul", "blue box ul"]));
+    }
+    if rng.chance(1, 6) {
+        push("--commit-decoration-style");
+        push(*rng.pick(&["box", "ul", "bold yellow box ul", "none"]));
+    }
+    if rng.chance(1, 8) {
+        push("--commit-style");
+        push(*rng.pick(&["bold yellow", "raw", "blue"]));
     }
     if rng.chance(1, 10) {
         push("--file-decoration-style");
